@@ -146,7 +146,7 @@ func ruleReducer(c *Ctx) {
 		var zeroEdge *ssa.BasicBlock
 		for k := range facts.At(b) {
 			cmp, ok := k.v.(*ssa.BinOp)
-			if !ok || cmp.X != bo.X {
+			if !ok || !(cmp.X == bo.X || sameValue(cmp.X, bo.X)) {
 				continue
 			}
 			kv, ok := constInt(cmp.Y)
